@@ -454,6 +454,22 @@ func search(args map[string]string) {
 			}
 			nsnap := 0
 			var valid []int // region snapshots that can still be reverted to
+			if g.r.Chance(2, 5) {
+				// same mutator, same target: last journaled op before the snapshot and first one after it
+				setup, before, after := g.BoundaryPair()
+				prefix = append(prefix, setup...)
+				prefix = append(prefix, before)
+				region = append(region, after)
+				if g.r.Chance(1, 2) {
+					nr = g.r.Intn(3)
+				}
+				if g.r.Chance(1, 3) {
+					// and once more around a nested snapshot inside the region
+					_, b2, a2 := g.BoundaryPair()
+					region = append(region, b2, "snapshot", a2, fmt.Sprintf("revert @%d", nsnap))
+					nsnap++
+				}
+			}
 			for j := 0; j < nr; j++ {
 				x := g.r.Intn(10)
 				switch {
